@@ -24,7 +24,7 @@ ANCHOR_FUNCS = ["Data._apply_axis", "Week.compute_from_times", "util.date_to_uni
 def plan(tier, seed):
     shards = [{"part": "days", "lo": y, "hi": y + 25} for y in range(1900, 2101, 25)]
     shards += [{"part": "buckets", "seed": seed, "k": k, "n": 1500 if tier == "quick" else 40000} for k in range(2)]
-    shards += [{"part": "data", "seed": seed, "k": k, "n": 8 if tier == "quick" else 250} for k in range(8)]
+    shards += [{"part": "data", "seed": seed, "k": k, "n": 15 if tier == "quick" else 250} for k in range(8)]
     return shards
 
 
